@@ -109,7 +109,9 @@ Definition judge_plot2 (case obs : sx) : sx :=
           LL [SS (if must then "ok" else "bad"); SS "refused"]
       | None =>
       let nx := length ax in let ny := length ay in
-      let sizes := outer [map (fun b => snd b - fst b) ax; map (fun b => snd b - fst b) ay] in
+      let sizes := if String.eqb kind "polar_map"
+                   then bin_sizes "PolarHistogram" 0 [ax; ay] [map (fun _ => (0, 0)) ax; map (fun _ => (0, 0)) ay]
+                   else outer [map (fun b => snd b - fst b) ax; map (fun b => snd b - fst b) ay] in
       let data := plot_data dens false freq sizes in
       let scale := qmaxl data in
       let pos_scale := qmaxl (map fst ax ++ map snd ax ++ map fst ay ++ map snd ay) in
@@ -124,6 +126,27 @@ Definition judge_plot2 (case obs : sx) : sx :=
                                   Qceqb x (fst bx) && Qceqb y (fst by_) && pnear pos_scale w (snd bx - fst bx) && pnear pos_scale h (snd by_ - fst by_)
                                 | _ => false end) rs want &&
               monotone_colour (map snd want) (map (fun r => nth 4 r 0) rs)
+          | None => false end
+        else if String.eqb kind "polar_map" then
+          (* bars in polar axes: x = phi, bottom = r, width = dphi, height = dr; axis 0 is r, axis 1 is phi *)
+          match (x <- fld "rects" obs ;; d_list (d_list d_q) x) with
+          | Some rs =>
+              let want := filter (fun p => show_zero || Qcltb 0 (snd p)) (combine cells data) in
+              all2n (fun r p => match r with [x; y; w; h; _] =>
+                                  let '(bx, by_) := fst p in
+                                  Qceqb x (fst by_) && Qceqb y (fst bx) && pnear pos_scale w (snd by_ - fst by_) && pnear pos_scale h (snd bx - fst bx)
+                                | _ => false end) rs want &&
+              monotone_colour (map snd want) (map (fun r => nth 4 r 0) rs)
+          | None => false end
+        else if String.eqb kind "bar3d" then
+          (* one box per bin, anchored at the bin's lower corner, as high as the value *)
+          match (x <- fld "boxes" obs ;; d_list (d_list d_q) x) with
+          | Some bs =>
+              all2n (fun b p => match b with [x; y; z; dx; dy; dz] =>
+                                  let '(bx, by_) := fst p in
+                                  Qceqb x (fst bx) && Qceqb y (fst by_) && Qceqb z 0 && pnear pos_scale dx (snd bx - fst bx) &&
+                                  pnear pos_scale dy (snd by_ - fst by_) && pnear scale dz (snd p)
+                                | _ => false end) bs (combine cells data)
           | None => false end
         else if String.eqb kind "image" then
           match (x <- fld "image" obs ;; d_list d_q x), (x <- fld "extent" obs ;; d_list d_q x) with
